@@ -40,6 +40,9 @@ def obligations(tier):
     # changed and the readings are recalculated, they obey the definition for the NEW period
     for name in ("SMA", "EMA", "RMA", "WMA", "VWMA"):
         obs.append(Ob(f"{name}/period 3->2 + recalculate/n=6", dict(name=name, n=6), DEF, fn="run_reparam", weight=6, budget_s=300))
+    # the same definitions over the buckets of a collapsing timeframe that is fed live (one raw candle per append)
+    for name, kw, n in (("SMA", dict(period=2), 6), ("EMA", dict(period=2), 8), ("RMA", dict(period=2), 8), ("WMA", dict(period=2), 6), ("HMA", dict(period=4), 12)):
+        obs.append(Ob(f"live-T2-feed/{name}{kw}/n={n}", dict(spec=["ind", name, kw], n=n, feed="live-T2"), DEF, weight=n * 3, budget_s=300 if tier == "quick" else 2400, max_paths=100000))
     return obs
 
 
